@@ -31,7 +31,11 @@ for p in props:
             "level_claimed": {"category": "proof", "text": c["text"], "design_ref": "DESIGN.md §5 " + pid},
             "level_note": c["note"], "technique": c["technique"]})
     else:
-        reason = claims.get("not_applicable", {}).get(pid) or (
+        reason = claims.get("not_applicable", {}).get(pid)
+        if pid in claims.get("pending", {}):
+            reason = ("check built (Lean model, theorems, harness are in the tree) but temporarily withdrawn: its model is being "
+                      "brought in line with repairs made for other properties; not a claim that the technique cannot apply")
+        reason = reason or (
             "check not built yet (planned: Lean model + theorems + correspondence, DESIGN.md §5 %s); "
             "not a claim that the technique cannot apply" % pid)
         m["not_applicable"].append({"property_id": pid, "reason": reason})
